@@ -2,6 +2,7 @@ import Goirc.Facts
 import Goirc.Model.Split
 import Goirc.Model.Commands
 import Goirc.Model.Line
+import Goirc.Model.Client
 /-!
 # Tie A obligations: what was extracted from /repo now vs what the model assumes
 
@@ -204,6 +205,56 @@ theorem shape_DefaultNewNick : Facts.shape_DefaultNewNick = some "3735fad4833fb4
 
 /-- [C17] `Conn.EnableStateTracking` is the body the model transcribes -/
 theorem shape_Conn_EnableStateTracking : Facts.shape_Conn_EnableStateTracking = some "a0a16c9811ebe237" := by decide
+
+
+/-- [C19] capability sub-command constants and the sasl capability name -/
+theorem cap_consts : [Facts.const_CAP_LS, Facts.const_CAP_REQ, Facts.const_CAP_ACK, Facts.const_CAP_NAK, Facts.const_CAP_END, Facts.const_saslCap] =
+    [Go.Client.CAP_LS, Go.Client.CAP_REQ, Go.Client.CAP_ACK, Go.Client.CAP_NAK, Go.Client.CAP_END, Go.Client.saslCap].map some := by decide
+
+/-- [C19] `Conn.getRequestCapabilities` is the body the model transcribes -/
+theorem shape_Conn_getRequestCapabilities : Facts.shape_Conn_getRequestCapabilities = some "42248ffdc22caf4f" := by decide
+
+/-- [C19] `Conn.negotiateCapabilities` is the body the model transcribes -/
+theorem shape_Conn_negotiateCapabilities : Facts.shape_Conn_negotiateCapabilities = some "09eb82be607f4965" := by decide
+
+/-- [C19] `Conn.handleCapAck` is the body the model transcribes -/
+theorem shape_Conn_handleCapAck : Facts.shape_Conn_handleCapAck = some "b0b8f0a78bef721d" := by decide
+
+/-- [C19] `Conn.handleCapNak` is the body the model transcribes -/
+theorem shape_Conn_handleCapNak : Facts.shape_Conn_handleCapNak = some "6aa9da379756d5ac" := by decide
+
+/-- [C19] `Conn.h.CAP` is the body the model transcribes -/
+theorem shape_Conn_h_CAP : Facts.shape_Conn_h_CAP = some "bd8988bc5e924a43" := by decide
+
+/-- [C19] `Conn.h.410` is the body the model transcribes -/
+theorem shape_Conn_h_410 : Facts.shape_Conn_h_410 = some "13c3aa913997fadf" := by decide
+
+/-- [C19] `Conn.h.AUTHENTICATE` is the body the model transcribes -/
+theorem shape_Conn_h_AUTHENTICATE : Facts.shape_Conn_h_AUTHENTICATE = some "21a01390eb118d50" := by decide
+
+/-- [C19] `Conn.h.903` is the body the model transcribes -/
+theorem shape_Conn_h_903 : Facts.shape_Conn_h_903 = some "0a5365d442c7ce2e" := by decide
+
+/-- [C19] `Conn.h.904` is the body the model transcribes -/
+theorem shape_Conn_h_904 : Facts.shape_Conn_h_904 = some "ccf513620a340920" := by decide
+
+/-- [C19] `Conn.h.908` is the body the model transcribes -/
+theorem shape_Conn_h_908 : Facts.shape_Conn_h_908 = some "4e057250c5a15503" := by decide
+
+/-- [C19] `capSet.Add` is the body the model transcribes -/
+theorem shape_capSet_Add : Facts.shape_capSet_Add = some "fdcbdb638fc9d349" := by decide
+
+/-- [C19] `capSet.Has` is the body the model transcribes -/
+theorem shape_capSet_Has : Facts.shape_capSet_Has = some "6d7afb0af0112d9e" := by decide
+
+/-- [C19] `capSet.Intersect` is the body the model transcribes -/
+theorem shape_capSet_Intersect : Facts.shape_capSet_Intersect = some "744f4dda468b91f1" := by decide
+
+/-- [C19] `capSet.Slice` is the body the model transcribes -/
+theorem shape_capSet_Slice : Facts.shape_capSet_Slice = some "359693340f0d0456" := by decide
+
+/-- [C19] `capSet.Size` is the body the model transcribes -/
+theorem shape_capSet_Size : Facts.shape_capSet_Size = some "c8e15fe017984bd6" := by decide
 
 
 end FactsCheck
